@@ -23,12 +23,15 @@ func Targets() []*Target {
 			encryptorTarget("rlwe.Encryptor[pk]", true),
 			decryptorTarget(),
 			keyGeneratorTarget(),
+			ringSwapKeyGenTarget(),
 			rgswEvaluatorTarget(),
 			lintransEvaluatorTarget(),
 			polynomialEvaluatorTarget(),
 		}
 		targets = append(targets, multipartyTargets()...)
 		targets = append(targets, mpSchemeTargets()...)
+		targets = append(targets, ringSwitchTargets()...)
+		targets = append(targets, ringPackingTarget(), blindrotTarget())
 	})
 	return targets
 }
